@@ -151,10 +151,17 @@ func (c *HeartbeatManager) updateHeartbeatData(stopC chan struct{}, d time.Durat
 	for {
 		select {
 		case <-ticker.C:
-
-			heartbeatData := c.heartbeatData(time.Now().UTC(), c.heartBeatCounter())
+			// do not refresh anymore if the heartbeat was stopped in the meantime
+			select {
+			case <-stopC:
+				return
+			default:
+			}
 
 			c.mux.Lock()
+			// take counter and timestamp under the lock, so refreshes are published in counter order
+			heartbeatData := c.heartbeatData(time.Now().UTC(), c.heartBeatCounter())
+
 			// updating the data will automatically notify all subscribed remote features
 			c.localFeature.SetData(model.FunctionTypeDeviceDiagnosisHeartbeatData, heartbeatData)
 			c.mux.Unlock()
